@@ -1,5 +1,9 @@
+import re
 import typing
 from lbry.dht.error import DecodeError
+
+_INTEGER = re.compile(rb'0|-?[1-9][0-9]*')
+_LENGTH = re.compile(rb'0|[1-9][0-9]*')
 
 
 def _bencode(data: typing.Union[int, bytes, bytearray, str, list, tuple, dict]) -> bytes:
@@ -29,6 +33,8 @@ def _bencode(data: typing.Union[int, bytes, bytearray, str, list, tuple, dict]) 
 def _bdecode(data: bytes, start_index: int = 0) -> typing.Tuple[typing.Union[int, bytes, list, tuple, dict], int]:
     if data[start_index] == ord('i'):
         end_pos = data[start_index:].find(b'e') + start_index
+        if not _INTEGER.fullmatch(data[start_index + 1:end_pos]):
+            raise DecodeError(f"invalid integer: {data[start_index + 1:end_pos][:32]}")
         return int(data[start_index + 1:end_pos]), end_pos + 1
     elif data[start_index] == ord('l'):
         start_index += 1
@@ -44,17 +50,16 @@ def _bdecode(data: bytes, start_index: int = 0) -> typing.Tuple[typing.Union[int
             key, start_index = _bdecode(data, start_index)
             value, start_index = _bdecode(data, start_index)
             decoded_dict[key] = value
-        return decoded_dict, start_index
+        return decoded_dict, start_index + 1
     else:
         split_pos = data[start_index:].find(b':') + start_index
-        try:
-            length = int(data[start_index:split_pos])
-            if length < 0:
-                raise ValueError(f"negative string length: {length}")
-        except (ValueError, TypeError) as err:
-            raise DecodeError(err)
+        if not _LENGTH.fullmatch(data[start_index:split_pos]):
+            raise DecodeError(f"invalid string length: {data[start_index:split_pos][:32]}")
+        length = int(data[start_index:split_pos])
         start_index = split_pos + 1
         end_pos = start_index + length
+        if end_pos > len(data):
+            raise DecodeError("string runs past the end of the data")
         return data[start_index:end_pos], end_pos
 
 
@@ -70,9 +75,11 @@ def bdecode(data: bytes, allow_non_dict_return: typing.Optional[bool] = False) -
     if len(data) == 0:
         raise DecodeError('Cannot decode empty string')
     try:
-        result = _bdecode(data)[0]
+        result, end_pos = _bdecode(data)
+        if end_pos != len(data):
+            raise ValueError(f'{len(data) - end_pos} bytes of trailing data')
         if not allow_non_dict_return and not isinstance(result, dict):
             raise ValueError(f'expected dict, got {type(result)}')
         return result
-    except (ValueError, TypeError) as err:
+    except (ValueError, TypeError, IndexError) as err:
         raise DecodeError(err)
